@@ -908,7 +908,9 @@ Definition C07_views (c : ccfg) (r : round) : option string :=
       if is_deleting sent && negb (should_finalize c sent) then None else
       let hooks := hook_events (r_events r) in
       (* judged only when every hook call was answered (an error aborts the sync) and one call per revision was made *)
-      if negb (forallb (fun e => match e_ans e with AHook _ => true | _ => false end) hooks) then None else
+      if negb (forallb (fun e => match e_ans e with
+                                 | AHook ans => match decode_composite ans with Some _ => true | None => false end
+                                 | _ => false end) hooks) then None else
       let before := revs_before c r sent in
       if negb (Nat.eqb (List.length hooks) (List.length before + (if existsb (is_latest_rev c sent) before then 0 else 1))) then None else
       if forallb (fun x => match answer_for c sent x (r_events r) with Some _ => true | None => false end) before
